@@ -509,6 +509,55 @@ func tryGenParallelCase(r *vh.Rand, id string) *rcase {
 	return c
 }
 
+// the gc tick placed CONCURRENTLY with a chunk: several streams of different snapshots have
+// been idle for the timeout when the collector fires; while it is held at one of its file
+// system operations the next chunk of one of them (still alive) arrives
+func genConcurrentGCCase(r *vh.Rand, id string) *rcase {
+	for {
+		if c := tryGenConcurrentGCCase(r, id); c != nil {
+			return c
+		}
+	}
+}
+
+func tryGenConcurrentGCCase(r *vh.Rand, id string) *rcase {
+	c := &rcase{id: id, kind: "R", did: 1 + uint64(r.Intn(3)), slots: 128, cgcSet: true, cgc: int64(r.Intn(18))}
+	c.to = 2 + uint64(r.Intn(5))
+	c.gc = 1 + uint64(r.Intn(3))
+	c.cs = 1024 + uint64(r.Intn(512))
+	sc := &scenario{c: c}
+	ns := 3 + r.Intn(3) // the alive stream and 2-4 stalled ones
+	for j := 0; j < ns; j++ {
+		var exts []int
+		if r.Bool() {
+			exts = []int{1 + r.Intn(2*int(c.cs))}
+		}
+		payload := 2*int(c.cs) + r.Intn(3*int(c.cs)) // at least three chunks
+		if !sc.addStream(r, uint64(1+j%2), uint64(1+(j/2)%2), uint64(5+r.Intn(3)), 100+uint64(j), 1+uint64(r.Intn(4)), payload, exts) {
+			return nil
+		}
+	}
+	alive := r.Intn(ns)
+	// everybody delivers a prefix at tick 0
+	split := 1 + r.Intn(len(sc.streams[alive].chunks)-1)
+	for j, s := range sc.streams {
+		n := 1 + r.Intn(len(s.chunks)-1)
+		if j == alive {
+			n = split
+		}
+		c.ops = append(c.ops, s.chunks[:n]...)
+	}
+	// the first gc tick at which they are all timed out
+	t0 := ((c.to + c.gc - 1) / c.gc) * c.gc
+	if t0 > 1 {
+		c.ops = append(c.ops, op{kind: opTick, n: t0 - 1})
+	}
+	c.ops = append(c.ops, op{kind: opConcTick})
+	c.ops = append(c.ops, sc.streams[alive].chunks[split:]...)
+	c.ops = append(c.ops, op{kind: opDrain})
+	return c
+}
+
 // bad file names: Filepath values whose base is not a plain child name
 func genNameCase(r *vh.Rand, id string) *rcase {
 	c := &rcase{id: id, kind: "R", did: 1, gc: 2, to: 4, slots: 128, cs: 2048}
@@ -571,6 +620,9 @@ func gen(a vh.Args) {
 	}
 	for i := 0; i < n/10+6; i++ {
 		w.Printf("%s\n", genParallelCase(r, fmt.Sprintf("p%d", i)).String())
+	}
+	for i := 0; i < n/5+20; i++ {
+		w.Printf("%s\n", genConcurrentGCCase(r, fmt.Sprintf("c%d", i)).String())
 	}
 	// sender cases whose message disagrees with the files (short read / empty file)
 	for i := 0; i < n/10+1; i++ {
